@@ -26,6 +26,13 @@ def main():
             res.coverage.setdefault("checker_cmd", "sv check " + prop); res.coverage.setdefault("trusted_base", core.TRUSTED_BASE)
             res.violation(dict(kind="obligation", obligation=dict(machinery="check raised " + repr(e)[:2000])), no_input=True)
         return res.finish()
+    if a[0] == "baseline":
+        # maintenance only (never run by a check): lists today's failures of the fixed regression set
+        from svlib import fmtprops, fmtrun
+        core.build_harness(); core.build_ml()
+        sp = fmtprops.SPEC[a[1]]
+        print(a[1], fmtrun.make_baseline(a[1], sp["judge"], sp["flags_b"], sp["mode_b"], dirs=sp.get("dirs")), "listed")
+        return 0
     if a[0] == "replay":
         payload = json.load(open(a[1]))
         mod = importlib.import_module("svlib." + payload["property"].lower())
